@@ -244,7 +244,13 @@ class Gen:
             if rng.random() < 0.12:
                 spec['until'] = {'time': 0}     # run(until=now): nothing later than now runs
         elif until == 'event':
-            spec['until'] = {'event': rng.choice(self.events)}
+            # (not an event that is part of a chain: the other events of the chain are triggered
+            # in the very time step in which the run stops - whether a failure among them still
+            # counts as unhandled is a race inside that step)
+            chained = {name for pair in self.chains for name in pair}
+            free = [name for name in self.events if name not in chained]
+            if free:
+                spec['until'] = {'event': rng.choice(free)}
         return spec
 
 
@@ -432,6 +438,8 @@ class World:
                     yield from settle()
                     raise SimErr(step['tag'])
                 elif op == 'return':
+                    # (the end of a process fires an event as well: at a time of its own)
+                    yield from settle()
                     return value_of(step['value'])
             except self.Interrupt as interrupt:
                 self.stats['interrupts_delivered'] += 1
@@ -462,6 +470,10 @@ class World:
             except GiveUp:
                 return 'gave-up'
             index += 1
+        try:
+            yield from settle()
+        except GiveUp:
+            return 'gave-up'
         return None
 
 
